@@ -63,6 +63,7 @@ def run(rep, tier, seed):
         return
     fixed = lf.replay_known(rep, "C14", oracle)
     cases = fixed + gen(rng, tier)
+    lf.add_histories(rng, cases)
     lf.run_cases(cases, extra_requests=lambda c: ["cert noshiftstop", "cert structural 0 0"])
     check(rep, cases, proofs_ok)
 
@@ -92,5 +93,6 @@ def replay(rep, path):
     build_harness()
     g = lf.parse_bnf(p["grammar"])
     c = lf.Case(p["grammar"], p["settings"].split(" "), [("LR", p.get("partial", "0"), p.get("input", ""), {"toks": ()})], gram=g)
+    lf.apply_replay_history(c, p)
     lf.run_cases([c], extra_requests=lambda c: ["cert noshiftstop", "cert structural 0 0"])
     check(rep, [c], True)
